@@ -7,12 +7,12 @@ W=/tmp/sw/$slot; mkdir -p /tmp/sw
 export CARGO_NET_OFFLINE=true CARGO_TARGET_DIR=$W/target
 cd $W/hecs
 for m in "$@"; do
-  d=/verif/seeded/_incoming/$m; name=demo_$(echo $m | tr '/' '_')
+  d=/verif/seeded/$m; name=demo_$(echo $m | tr '/' '_')
   git checkout -q -- . ; rm -f tests/demo_*.rs
   flags=""; case $m in C05/B|C06/*) flags="--cfg hecs_verif";; esac
   if ! git apply $d/patch.diff 2>/dev/null; then echo "{\"m\":\"$m\",\"applies\":false}" >> /verif/seeded/_confirm.jsonl; continue; fi
   base=$(cargo test --workspace --no-fail-fast --offline 2>&1 | grep "^test result" | awk '{p+=$4; f+=$6} END {print p":"f}')
-  cp $d/demo.rs tests/$name.rs
+  cp $d/demonstration.rs tests/$name.rs
   RUSTFLAGS="$flags" cargo test --offline --all-features --test $name > $W/mut.log 2>&1; with=$?
   git apply -R $d/patch.diff
   RUSTFLAGS="$flags" cargo test --offline --all-features --test $name > $W/clean.log 2>&1; without=$?
